@@ -59,7 +59,7 @@ func c13Server(c *ev.Ctx) {
 	for _, ms := range msizes {
 		m := uint64(ms)
 		counts := []uint64{0, 1, 2, m - 12, m - 11, m - 10, m - 1, m, m + 1, 2 * m, mib4 - 1, mib4, mib4 + 1, 1 << 31, 1<<32 - 1}
-		for i := 0; i < c.Sz(3, 60); i++ {
+		for i := 0; i < c.Sz(3, 400); i++ {
 			counts = append(counts, r.U64()%(2*m+2), r.U64()>>uint(32+r.Intn(32)))
 		}
 		fsizes := []uint64{0, 1, m - 12, m - 11, m - 10, m, 3 * m, 16 << 20}
